@@ -884,8 +884,14 @@ pub fn pinch_set(rng: &mut Rng, n: usize) -> Vec<Vec<(Vec<P>, Vec<Vec<P>>)>> {
             continue;
         }
         let (x1, h) = (v.0 + 1300, 1300);
-        let base = (rect_ring(v.0 - rng.range(1, 900), v.1 - rng.range(1, 900), v.0 + rng.range(1, 900), v.1, true), vec![]);
+        let (bl, br) = (rng.range(1, 900), rng.range(1, 900));
+        let base = (rect_ring(v.0 - bl, v.1 - rng.range(1, 900), v.0 + br, v.1, true), vec![]);
+        // a second base for ANOTHER operand: its top edge coincides with the first one's (same left
+        // end point half of the time), so V touches the interior of a stretch shared by both operands
+        let bl2 = if rng.chance(1, 2) { bl } else { rng.range(1, 900) };
+        let base2 = (rect_ring(v.0 - bl2, v.1 - rng.range(1, 900), v.0 + if rng.chance(1, 2) { br } else { rng.range(1, 900) }, v.1, true), vec![]);
         let mut base_used = false;
+        let mut base2_used = false;
         let mut out = vec![];
         for _ in 0..n {
             let shape = if mode == 1 { rng.below(6) } else { rng.below(10) }; // above-V fans: parts only (no enclosing polygon)
@@ -932,6 +938,9 @@ pub fn pinch_set(rng: &mut Rng, n: usize) -> Vec<Vec<(Vec<P>, Vec<Vec<P>>)>> {
                 if mode == 1 && !base_used && rng.chance(1, 2) {
                     parts.push(base.clone()); // touches the fan in V only; V is interior to its top edge
                     base_used = true;
+                } else if mode == 1 && base_used && !base2_used && rng.chance(2, 3) {
+                    parts.push(base2.clone());
+                    base2_used = true;
                 }
                 out.push(parts);
             } else {
@@ -1105,4 +1114,27 @@ fn dedup_ring(r: &[P]) -> Vec<P> {
         v.pop();
     }
     v
+}
+
+/// family "combx": two combs crossing each other - A with T horizontal teeth, B the same comb
+/// mirrored at the diagonal and shifted so that no coordinate is shared: ~8T edges, 4T^2 proper
+/// crossings. The number of sweep events per input edge grows with T (it is what the quadratic
+/// event bound of C03 is about), unlike in every other family. Axis-parallel integers: exact.
+pub fn combx_pair(rng: &mut Rng) -> (Vec<(Vec<P>, Vec<Vec<P>>)>, Vec<(Vec<P>, Vec<Vec<P>>)>) {
+    let t = rng.range(17, 22);
+    let l = 4 * t + 6;
+    let o = (rng.range(-40, 40), rng.range(-40, 40));
+    let mut a: Vec<P> = vec![(0, 0)];
+    for i in 0..t {
+        a.push((l, 4 * i));
+        a.push((l, 4 * i + 2));
+        if i + 1 < t {
+            a.push((2, 4 * i + 2));
+            a.push((2, 4 * i + 4));
+        }
+    }
+    a.push((0, 4 * (t - 1) + 2));
+    let b: Vec<P> = a.iter().rev().map(|p| (p.1 + 3, p.0 - 3)).collect(); // mirrored: orientation restored by reversing
+    let sh = |r: Vec<P>| -> Vec<P> { r.into_iter().map(|p| (p.0 + o.0, p.1 + o.1)).collect() };
+    (vec![(sh(a), vec![])], vec![(sh(b), vec![])])
 }
